@@ -160,14 +160,14 @@ var vfPalette = map[string][]vfLeaf{
 	"float64":    {{"0", float64(0)}, {"-1.5", float64(-1.5)}, {"max", float64(math.MaxFloat64)}, {"tiny", float64(math.SmallestNonzeroFloat64)}, {"2p53", float64(1 << 53)}, {"0.1", float64(0.1)}, {"nan", math.NaN()}, {"+inf", math.Inf(1)}},
 	"bool":       {{"true", true}, {"false", false}},
 	"string":     {{"", ""}, {"a", "a"}, {"utf8", "héllo → 世界 \U0001F642"}, {"html", "<a href=\"x\">&'</a>"}, {"ctl", "line\nbreak\ttab \x00"}},
-	"named":      {{"", vfNamed("")}, {"a", vfNamed("a")}, {"utf8", vfNamed("世界<&>")}},
+	"named":      {{"", vfNamed("")}, {"a", vfNamed("a")}, {"utf8", vfNamed("世界<&>")}, {"esc", vfNamed("\x1b[1m\x00")}, {"nonbmp", vfNamed("\U000E0001\a")}},
 	"namedint":   {{"0", vfNamedInt(0)}, {"max", vfNamedInt(math.MaxInt64)}},
 	"unreg":      {{"1", vfUnreg(1)}},
 	"complex128": {{"1+2i", complex(1, 2)}},
 }
 
 // kinds the abstract token "int" may stand for (seeded choice per case)
-var vfIntKinds = []string{"int", "int", "int64", "uint8", "uint64", "float64", "int32", "float32", "bool", "namedint", "int8", "uint", "uint16", "int16", "uint32"}
+var vfIntKinds = []string{"int", "string", "int64", "uint8", "uint64", "float64", "int32", "float32", "bool", "namedint", "int8", "uint", "uint16", "int16", "uint32"}
 
 type vfAbs struct {
 	T    []string  `json:"t"`
